@@ -44,6 +44,10 @@ func NewVM(bytecode *Bytecode) *VM {
 	}
 }
 
+// maxRepeatedLen is the largest array that array repetition creates, as in
+// the evaluator.
+const maxRepeatedLen = 1 << 26
+
 // Run executes the provided bytecode instructions in order, any error
 // will stop the execution.
 //
@@ -174,7 +178,13 @@ func (vm *VM) Run() error {
 			if repetitions < 0 {
 				return fmt.Errorf("%w: negative count: %s", ErrBadRepetition, right)
 			}
-			elements := make([]value, 0, len(left.Elements)*repetitions)
+			n := len(left.Elements)
+			if n == 0 {
+				repetitions = 0 // nothing to repeat, however often
+			} else if repetitions > maxRepeatedLen/n {
+				return fmt.Errorf("%w: result too large: %s", ErrBadRepetition, right)
+			}
+			elements := make([]value, 0, n*repetitions)
 			for range repetitions {
 				elements = append(elements, left.Elements...)
 			}
